@@ -73,6 +73,18 @@ check("C24", "crashsim", "fault_enumeration",
       "deterministic simulation: journalled in-memory FS, exhaustive kill-point enumeration + torn writes, real resume run vs uninterrupted reference",
       "DESIGN.md 3.3")
 
+check("C25", "crashsim", "fault_enumeration",
+      "For each sampled base run of the real classic driver (iterations 2-4, save_strategy all/latest, MAP / sampled / "
+      "switching sample counts, MGVI/geoVI, transitions, constants, point estimates, five write-buffer sizes; thorough: "
+      "also 2-3 simulated MPI ranks and chains of two kills) every kill point - before/after every creat, write, close, "
+      "unlink, rename, mkdir plus torn writes - is reconstructed from the journal and the real driver is resumed on it; "
+      "it must finish with final samples and mean bit-identical to the uninterrupted run.",
+      "Trusted: SimFS's POSIX/CPython-buffering model; crash = kill, not power loss; a resume is modelled as a fresh "
+      "process by resetting the RNG stack and optimize_kl's module globals; plots and HDF5 export are off (they write "
+      "outside the seam). One open known finding (save_strategy='latest', kill inside the multi-file overwrite).",
+      "deterministic simulation: journalled in-memory FS, exhaustive kill-point enumeration + torn writes (+ kill chains, simulated ranks), real resume run vs uninterrupted reference",
+      "DESIGN.md 3.4")
+
 ENGINES = [
     {"name": "mpisim", "path": "verifsim/sched.py", "serves_properties": ["C22", "C23", "C26"],
      "kind_free_text": "baton-passing thread-ranks running real NIFTy code behind SimComm (fake mpi4py communicator); seeded policies, eager/rendezvous per message, deadlock detection, explicit replay"},
